@@ -5,7 +5,7 @@ from common import COQ, BUILD, COQFLAGS, NPROC
 
 HEADER = """From Coq Require Import List ZArith Arith QArith Qcanon.
 Import ListNotations.
-From TT Require Import RingSig Instances SumN Mat Dense Core Expr %s.
+From TT Require Import RingSig Instances SumN Mat Dense Core Struct Index Expr %s.
 """
 
 from fractions import Fraction
